@@ -382,16 +382,21 @@ func writeReplay(w *World, prop string, a *aggOblig) replayInfo {
 	o := a.Fail
 	path := filepath.Join(verifDir, "replays", prop, sanitize(a.Name)+".json")
 	model := map[string]string{}
+	modelKind := ""
 	if o.Verdict == "sat" {
-		model = parseModel(o)
+		model = parseModel(o, o.Raw)
+		modelKind = "model of the full query"
+	} else if o.Relaxed != "" {
+		model = parseModel(o, o.Relaxed)
+		modelKind = "candidate from the relaxed query (quantified hypotheses dropped); valid only if the replay confirms it"
 	}
 	rec := map[string]any{
 		"property": prop, "obligation": a.Name, "kind": a.Kind, "function": a.Func, "position": o.Pos.String(),
 		"description": o.Desc, "clause": o.Clause, "verdict": o.Verdict, "solver_output": o.Raw,
-		"path_blocks": o.Trace, "model_inputs": model, "goal_smt": o.Goal,
+		"path_blocks": o.Trace, "model_inputs": model, "model_kind": modelKind, "goal_smt": o.Goal,
 	}
 	confirmed := false
-	if o.Verdict == "sat" && len(model) > 0 {
+	if len(model) > 0 {
 		if res := tryReplay(w, prop, a, model); res != nil {
 			rec["replay"] = res
 			if c, ok := res["confirmed"].(bool); ok && c {
@@ -410,9 +415,8 @@ func writeReplay(w *World, prop string, a *aggOblig) replayInfo {
 }
 
 // parseModel extracts the get-value answers for the function inputs.
-func parseModel(o *Oblig) map[string]string {
+func parseModel(o *Oblig, raw string) map[string]string {
 	out := map[string]string{}
-	raw := o.Raw
 	for name, term := range o.Inputs {
 		if strings.HasPrefix(name, "str!") || strings.HasPrefix(name, "glob!") || strings.HasPrefix(name, "func!") {
 			continue
@@ -481,7 +485,7 @@ func cmdDump(args []string) int {
 				fmt.Println(o.script(true))
 			}
 			if *solve && o.Verdict != "unsat" && !o.Cover {
-				fmt.Println("   model:", parseModel(o))
+				fmt.Println("   model:", parseModel(o, o.Raw), "relaxed:", parseModel(o, o.Relaxed))
 			}
 		}
 	}
